@@ -4,7 +4,7 @@ import json, os, sys
 V = os.path.dirname(os.path.dirname(os.path.abspath(__file__)))
 sys.path.insert(0, V)
 from sfa.loader import Tree
-from sfa.rules.common_params import unread_params, _is_stub, conforming
+from sfa.rules.common_params import unread_params, _is_stub, conforming, attr_counts
 
 HAND = {
     "ops.py::warning_on_one_line": "signature of warnings.formatwarning (message, category, filename, lineno, file, line)",
@@ -31,6 +31,13 @@ for f in t.all_functions():
         else:
             raise SystemExit(f"unread parameter without a reason: {fid}::{p}")
         unused[f"{fid}::{p}"] = why
-json.dump({"functions": sorted(funcs), "unused": dict(sorted(unused.items()))},
+reads = {}
+for f in t.all_functions():
+    c = attr_counts(f)
+    if c:
+        reads[f"{f.module.rel}::{f.qualname}"] = dict(sorted(c.items()))
+    else:
+        reads[f"{f.module.rel}::{f.qualname}"] = {}
+json.dump({"functions": sorted(funcs), "unused": dict(sorted(unused.items())), "attr_reads": dict(sorted(reads.items()))},
           open(os.path.join(V, "sfa", "rules", "param_inventory.json"), "w"), indent=0)
 print(len(funcs), "functions;", len(unused), "unread parameters recorded")
